@@ -121,7 +121,10 @@ type l1World struct {
 	reqs    int
 	// every operation accepted by the server per DUID: "cuid:seq" -> op (from requests answered ok)
 	accepted map[string]map[string]*model.Operation
-	waitBG   bool
+	// every operation that was part of any request handed to the server, whatever the answer:
+	// a request that failed half-way or whose answer was an error may still have been stored
+	sentAny map[string]bool
+	waitBG  bool
 	// noConverge: only the stored-log invariants are checked at settle points (C06)
 	noConverge bool
 }
@@ -135,7 +138,7 @@ func newL1World(idseed uint64, kinds []sim.Kind) (*l1World, error) {
 		return nil, err
 	}
 	l1Seq++
-	w := &l1World{env: env, col: fmt.Sprintf("col%d", l1Seq), labels: map[string]bool{}, accepted: map[string]map[string]*model.Operation{}, waitBG: true}
+	w := &l1World{env: env, col: fmt.Sprintf("col%d", l1Seq), labels: map[string]bool{}, accepted: map[string]map[string]*model.Operation{}, sentAny: map[string]bool{}, waitBG: true}
 	// known finding S14: the first two collections both get number 1; a dummy collection takes the first
 	if err := env.CreateCollection(fmt.Sprintf("dummy%d", l1Seq)); err != nil {
 		env.Close()
@@ -266,6 +269,11 @@ func packError(p *model.PushPullPack) string {
 func (w *l1World) send(c *l1Client, req *model.PushPullMessage) *exchange {
 	w.reqs++
 	ex := &exchange{req: req, errPacks: map[string]string{}}
+	for _, p := range req.PushPullPacks {
+		for _, op := range p.Operations {
+			w.sentAny[opKey(op)] = true
+		}
+	}
 	ex.resp, ex.rpcErr, ex.timedOut = w.env.ProcessPushPull(req, l1Deadline)
 	if ex.resp != nil {
 		for _, p := range ex.resp.PushPullPacks {
@@ -423,7 +431,7 @@ func (w *l1World) checkLogInvariants() error {
 		}
 		for k := range storedSet {
 			if w.accepted[duid] == nil || w.accepted[duid][k] == nil {
-				if !w.foreignStoredOK(duid, k) {
+				if !w.foreignStoredOK(duid, k) && !w.sentAny[k] {
 					return fmt.Errorf("datatype %s: stored operation %s was never pushed by any client in an answered request", duid, k)
 				}
 			}
